@@ -6,7 +6,7 @@ import os, sys, subprocess, shutil, tempfile, json, glob, re
 from multiprocessing import Pool
 VERIF = '/verif'
 claimed = [c['property_id'] for c in json.load(open(VERIF + '/MANIFEST.json'))['checks']]
-patches = sys.argv[1:] or sorted(glob.glob(VERIF + '/benign/*.diff'))
+patches = [os.path.abspath(a) for a in sys.argv[1:]] or sorted(glob.glob(VERIF + '/benign/*.diff'))
 
 
 def one(pt):
